@@ -14,6 +14,7 @@ T6 task table: one row per key of the cluster's finished table
 T7 the scheduler itself releases the observation's batch reservation when the workflow closes
 """
 import ast
+import re
 
 from ..index import AnalysisError, is_spawn, walk_no_nested
 from ..norm import Canon, Lit, Logic, ProvCanon, effects_of_event, path_effects, effects_along
@@ -439,5 +440,13 @@ def t6(repo, res, canon, pc):
                 stores = [ef for ef in path_effects(canon, seg) if ef.kind == 'store' and ef.arg == '%s.id' % tv]
                 if how != 'back' or len(stores) != 1:
                     ok, why = False, 'a finished task can be left out of (or entered twice into) the task table'
+    if not ok:
+        # any other spelling: the dictionary handed to the data frame is {t.id: ... for t in finished}
+        for n in walk_no_nested(f.node):
+            if isinstance(n, ast.Call) and call_name(n) == 'DataFrame' and n.args:
+                P = pc.p(n.args[0], fr)
+                if re.fullmatch(r'map\[elem\(%s\)\.id: .* for %s\]' % (re.escape(CU.FINISHED), re.escape(CU.FINISHED)), P) \
+                        and ' if ' not in P.rsplit(' for ', 1)[1]:
+                    ok = True
     (res.ok if ok else res.bad)('C04.T6', f, loops[0] if loops else None, 'one task-table entry per key of tasks.finished',
                                 'ok' if ok else why)
